@@ -258,14 +258,10 @@ ASSUMPTIONS = [
     'item on the field line), only what the same API reads back from it; binary routes without encoding= are used only for objects '
     'whose encoding is UTF-8 (an object read from a text file that declares an 8-bit encoding carries that encoding and writes it - '
     'by design, established on the unchanged tree)',
-    '"mv" class GUARD (under-demand; a disagreement of the unchanged tree, counted as unjudged:gpg-api-comment-block-between-blank-'
-    'lines:*): a COMMENT-ONLY block that stands between blank lines (in front of the first paragraph after leading blank lines, or '
-    'between two paragraphs separated by several blank lines) makes Dsc / Changes - constructor from a sequence of lines / a file, '
-    'and iter_paragraphs from every form - stop there (empty object / remaining paragraphs lost), because the gpg-aware classes '
-    'split the payload at blank lines BEFORE comment lines are skipped; Deb822 and Deb822.iter_paragraphs read such documents '
-    'correctly and are judged on them in every other class.  "mv" documents therefore get exactly one blank line between '
-    'paragraphs and no comment lines among their leading blank lines (comment lines inside and directly around the paragraphs are '
-    'interleaved as everywhere)',
+    '"mv" class: a COMMENT-ONLY block that stands between blank lines (in front of the first paragraph, or between two paragraphs) '
+    'is no paragraph and does not end the document: judged for Dsc / Changes through the constructor on lines and iter_paragraphs on '
+    'lines and str (this exposed a genuine defect of the gpg-aware classes on the then-unchanged tree, repaired by fix e84cae2; see '
+    'known_findings.json); the generated "mv" documents themselves keep one blank line between paragraphs',
     '"mv" class: Dsc / Changes (constructor and iter_paragraphs) on a text file that declares an ASCII-incompatible encoding '
     '(utf-16) are not judged, as everywhere; armour is applied to single paragraphs only, as everywhere',
     '"mv" class COST bound: single paragraphs run two plain and two armoured cells of the form grid (all four comments x '
@@ -2491,14 +2487,29 @@ def evaluate(ctx, case, record=True):
                             failures.setdefault('after-dump-and-re-parse:' + res[0], []).append(
                                 (form, '%s; the %s object read from %s was dumped (route %s) as %s and re-read as %s'
                                  % (res[1], cls, show_lines(lines), rroute, show_lines(dl), rcont)))
-    if mv and record and single and not salt % 4:
-        # established, not judged (see ASSUMPTIONS): a comment-only block between blank lines in front of the paragraph
-        try:
-            got = [observe(deb822.Dsc(['', '# c', ''] + base))]
-            ctx.count('unjudged:gpg-api-comment-block-between-blank-lines:%s'
-                      % ('agree' if diff(exp_by_api['Dsc'], got) is None else 'differ'))
-        except Exception:
-            ctx.count('unjudged:gpg-api-comment-block-between-blank-lines:raise')
+    if mv and single and not salt % 4 and executed:
+        # comment lines are ignored wherever they stand: a COMMENT-ONLY block between blank lines - in front of the paragraph,
+        # or between two paragraphs - is no paragraph and does not end the document (judged since fix e84cae2; before it the
+        # gpg-aware classes stopped there)
+        for api_name in ('Dsc', 'Changes'):
+            cls = getattr(deb822, api_name)
+            want1 = exp_by_api[api_name]
+            probes = [('constructor(lines)', lambda: [observe(cls(['', '# c', ''] + base))], want1),
+                      ('iter_paragraphs(lines)', lambda: [observe(p) for p in cls.iter_paragraphs(base + ['', '# c1', '# c2', '', ''] + base)],
+                       want1 + want1),
+                      ('iter_paragraphs(str)', lambda: [observe(p) for p in cls.iter_paragraphs('\n'.join(['', '# c', ''] + base + ['', '#x', ''] + base) + '\n')],
+                       want1 + want1)]
+            for pname, call, want in probes:
+                if record:
+                    ctx.count('comment-only-block-between-blank-lines:%s:%s' % (api_name, pname))
+                try:
+                    got = call()
+                    res = diff(want, got)
+                except Exception as e:
+                    res = ('raises-%s' % type(e).__name__, repr(e))
+                if res is not None:
+                    failures.setdefault('comment-only-block-between-blank-lines-ends-the-document', []).append(
+                        (executed[0], '%s.%s on %s with a comment-only block between blank lines: %s' % (api_name, pname, show_lines(base), res[1])))
     for kind, fl in failures.items():
         forms = [f for f, _ in fl]
         # all output routes agree on the text (always, on the unchanged tree): the key names the input-form classes; if
